@@ -88,6 +88,9 @@ class Vocab:
         if re_is_free(r):
             return rng.choice(FREE_POOL)
         ws = [w for w in re_words(r, rng) if w not in ("*", ">")]
+        if concrete_only:
+            # an extension alias name ('maya', 'cache', ...) is search syntax, not the value of an entity
+            ws = [w for w in ws if w not in self.aliases] or ws
         return rng.choice(ws) if ws else rng.choice(FREE_POOL)
 
     def near_miss(self, v):
